@@ -13,8 +13,9 @@ RandMsg(n) == Msg(RandomElement(ITEMS), RandomElement(TIMES), RandomElement(VALU
 
 GStep == /\ ~done /\ Len(hist) < MaxLen
          \* (bound through singleton sets: a LET would re-draw at every reference)
-         /\ \E m1 \in {RandMsg(Len(hist))}, m2 \in {RandMsg(Len(hist) + 1)}, k \in {RandomElement(1..4)} :
+         /\ \E m1 \in {RandMsg(Len(hist))}, m2 \in {RandMsg(Len(hist) + 1)}, k \in {RandomElement(1..5)} :
                IF k = 4 THEN (last' = <<Msg(m1.item, -1, 0)>> /\ UNCHANGED <<held, delivered>>)     \* Touch
+               ELSE IF k = 5 THEN (last' = <<Msg(m1.item, -3, 0)>> /\ UNCHANGED <<held, delivered>>)  \* Notice
                ELSE Deliver(IF k = 1 /\ m1.item # m2.item THEN <<m1, m2>> ELSE <<m1>>)
          /\ hist' = Append(hist, last')
          /\ UNCHANGED done
